@@ -46,6 +46,13 @@ void Connector::start()
 void Connector::startInLoop()
 {
   loop_->assertInLoopThread();
+  if (state_ == kConnected)
+  {
+    // the socket of the previous cycle was handed over as a connection:
+    // a new connect() cycle starts from a clean state and the initial delay
+    setState(kDisconnected);
+    retryDelayMs_ = kInitRetryDelayMs;
+  }
   assert(state_ == kDisconnected);
   if (connect_)
   {
